@@ -13,6 +13,61 @@ def runExpr (j : Json) : P Json := do
   | .ok (t, ts') => pure (Json.mkObj [("ok", termOut ts'.getSymbol t)])
   | .error e => pure (Json.mkObj [("err", exprErrOut e)])
 
+def sortedOrigin (o : List Nat) : List Nat := o.foldl (fun acc x => Origin.insert x acc) []
+
+/-- outcomes of `find_match` over all iteration orders of the fact store -/
+def matchOutcomes (rs : List (Except ExprErr (Option (List Nat × Fact)))) : Json :=
+  let hits := rs.any fun r => match r with | .ok (some _) => true | _ => false
+  let errs := rs.any fun r => match r with | .error _ => true | _ => false
+  let t := Json.mkObj [("b", true)]
+  let f := Json.mkObj [("b", false)]
+  let e := Json.mkObj [("err", "exec")]
+  if hits && errs then Json.mkObj [("any", Json.arr #[t, e])]
+  else if hits then t else if errs then e else f
+
+def allOutcomes (syms : SymbolTable) (exprs : List (List Op)) (bs : List (List Nat × Bindings)) : Json :=
+  let rs := bs.map fun ob => evalExprs exprs ob.2 (TempSyms.new syms)
+  let falses := rs.any fun r => match r with | .ok false => true | _ => false
+  let errs := rs.any fun r => match r with | .error _ => true | _ => false
+  let f := Json.mkObj [("b", false)]
+  let e := Json.mkObj [("err", "exec")]
+  if falses && errs then Json.mkObj [("any", Json.arr #[f, e])]
+  else if falses then f else if errs then e else Json.mkObj [("b", !rs.isEmpty)]
+
+def runEngine (j : Json) : P Json := do
+  let syms : SymbolTable := ⟨← parseSymbols (← field j "symbols")⟩
+  let facts ← (← getArr (← field j "facts")).mapM fun f => do
+    match ← getArr f with
+    | [o, p] => pure (sortedOrigin (← parseNats o), ← parsePred p)
+    | _ => throw "bad fact"
+  let rules ← (← getArr (← field j "rules")).mapM fun r => do
+    match ← getArr r with
+    | [b, t, rl] => pure (⟨← parseNats t, ← getNat b, ← parseRule rl⟩ : SRule)
+    | _ => throw "bad rule"
+  let lj ← field j "limits"
+  let tmo : Option Nat := match fieldOpt lj "t" with
+    | some (.num n) => some n.mantissa.toNat
+    | _ => none
+  let lim : Limits := ⟨← getNat (← field lj "f"), ← getNat (← field lj "i"), tmo⟩
+  let init := factMerge [] facts
+  let out := run syms rules lim init
+  let r := match out.result with
+    | .ok () => "ok"
+    | .error e => runErrOut e
+  let qs ← (← getArr (← field j "queries")).mapM fun q => do
+    let kind ← (← field q "kind").getStr?
+    let blk ← getNat (← field q "blk")
+    let tr ← parseNats (← field q "trusted")
+    let rule ← parseRule (← field q "rule")
+    match kind with
+    | "rule" =>
+      match queryRule syms out.facts tr blk rule with
+      | .ok fs => pure (Json.mkObj [("facts", factsOut fs)])
+      | .error _ => pure (Json.mkObj [("err", "exec")])
+    | "match" => pure (matchOutcomes (applyRule syms (visible tr out.facts) blk rule))
+    | _ => pure (allOutcomes syms rule.exprs (combine (visible tr out.facts) rule.body (MV.new (bodyVars rule.body))))
+  pure (Json.mkObj [("r", r), ("iterations", out.iterations), ("facts", factsOut out.facts), ("queries", Json.arr qs.toArray)])
+
 def handle (line : String) : String :=
   match Json.parse line with
   | .error e => (Json.mkObj [("driver_error", s!"parse: {e}")]).compress
@@ -21,6 +76,7 @@ def handle (line : String) : String :=
       let op ← (← field j "op").getStr?
       match op with
       | "expr" => runExpr j
+      | "engine" => runEngine j
       | _ => throw s!"unknown op {op}"
     match r with
     | .ok o => o.compress
